@@ -27,7 +27,7 @@ type c14Case struct {
 func init() {
 	engine.Register(&engine.Check{
 		ID: "C14", Level: "exploration",
-		Rule:        "point sets of 1..4 points on the 4x4 grid; polylines of 2..4 vertices (repeated points allowed) and pairs of them; every SIMPLE ring (simplicity decided exactly) of 3..5 (thorough 6) vertices on the 4x4 grid in both directions and from every start vertex; polygons = every axis-parallel rectangle and lattice triangle on the 6x6 grid (thorough 8x8) as shell x lattice triangles / unit squares strictly inside as holes (<=1 quick, <=2 thorough), rings in every direction combination; multipolygons = pairs and triples of disjoint polygons, also handed to PolygonsCentroid as the member views of one multipolygon in every order (storage must stay bit-identical); zero-area polygons for the length-weighted fallback; offsets {0,1e5,2^30}; layouts with extra ordinates. Oracle: rational mean / length-weighted (256-bit sqrt) / area-weighted centroid within a forward error bound; IsRingCounterClockwise <=> exact signed area > 0; SignedArea = -(exact ccw area). distinct_nontrivial = distinct inputs with non-zero length or area Also: point sets and polylines with every count 1..70 and counts around powers of two, 4096/3 and 8192/3 up to 8193 (thorough 65537) in all four layouts.",
+		Rule:        "point sets of 1..4 points on the 4x4 grid; polylines of 2..4 vertices (repeated points allowed) and pairs of them; every SIMPLE ring (simplicity decided exactly) of 3..5 (thorough 6) vertices on the 4x4 grid in both directions and from every start vertex; polygons = every axis-parallel rectangle and lattice triangle on the 6x6 grid (thorough 8x8) as shell x lattice triangles / unit squares strictly inside as holes (<=1 quick, <=2 thorough), rings in every direction combination; multipolygons = pairs and triples of disjoint polygons, also handed to PolygonsCentroid as the member views of one multipolygon in every order (storage must stay bit-identical); zero-area polygons for the length-weighted fallback; offsets {0,1e5,2^30}; layouts with extra ordinates. Oracle: rational mean / length-weighted (256-bit sqrt) / area-weighted centroid within a forward error bound; IsRingCounterClockwise <=> exact signed area > 0; SignedArea = -(exact ccw area). distinct_nontrivial = distinct inputs with non-zero length or area Also: point sets and polylines with every count 1..70 and counts around powers of two, 4096/3 and 8192/3 up to 8193 (thorough 65537) in all four layouts. Round 7: two and three holes in every direction combination also in the quick tier; zero-area polygons that are not collinear (a bent path walked out and back) alone and beside a collinear member.",
 		Run:         c14Run,
 		Replay:      func(c *engine.Ctx, kind string, raw json.RawMessage) { c14Exec(c, decodeCase[c14Case](raw)) },
 		Assumptions: []string{"valid polygons only (simple rings, holes strictly inside, disjoint members); polylines of non-zero total length"},
@@ -479,6 +479,33 @@ func c14Run(c *engine.Ctx) {
 			}
 		}
 	}
+	// very large rings (beyond any block size a divided sum might use): the zig-zag tower of C11
+	// with 4103, 20003 (thorough 66003) coordinates, both directions, two start vertices; as a
+	// ring (direction, signed area), as a polygon, and as a polygon with a unit-square hole
+	towerNs := []int{2050, 10000}
+	if c.Thorough() {
+		towerNs = append(towerNs, 33000)
+	}
+	type towerJob struct{ n, rev, rot int }
+	var towers []towerJob
+	for _, n := range towerNs {
+		for rev := 0; rev < 2; rev++ {
+			for _, rot := range []int{0, n + 7} {
+				towers = append(towers, towerJob{n, rev, rot})
+			}
+		}
+	}
+	c.Parallel(len(towers), func(i int) {
+		j := towers[i]
+		ring := c11Tower(j.n, j.rev, j.rot)
+		l := layouts[i%4]
+		hole := ringF(rot([]ref.P2{{X: 4, Y: 1}, {X: 5, Y: 1}, {X: 5, Y: 2}, {X: 4, Y: 2}}, i%4, j.rev == 0), 0)
+		c.Count("tower_rings", 1)
+		c14Exec(c, c14Case{Mode: "ring", Layout: l, Rings: [][]ref.F{ring}})
+		c14Exec(c, c14Case{Mode: "polygons", Layout: l, Rings: [][]ref.F{ring}, Counts: []int{1}})
+		c14Exec(c, c14Case{Mode: "polygons", Layout: l, Rings: [][]ref.F{ring, hole}, Counts: []int{2}})
+		c14Exec(c, c14Case{Mode: "lines", Layout: l, Rings: [][]ref.F{ring}})
+	})
 	// slivers: valid polygons whose area is tiny relative to their perimeter (the zero-area
 	// fallback must not be taken for them)
 	for _, N := range []float64{10, 1000, 1e5, 1 << 20, 1 << 26} {
